@@ -32,6 +32,8 @@ COUNT_KW = {"String": ("minLength", "maxLength"), "Array": ("minItems", "maxItem
 MAX_DIGITS, MAX_BITS = 3999, 13000
 FLOAT_MAX_INT = int(sys.float_info.max)          # 2**1024 - 2**971, the largest integer a float holds
 FLOAT_ROUND_LIMIT = 2 ** 1024 - 2 ** 970         # integers from here on do not round to a finite float
+N_SHARED = {"quick": 320, "thorough": 9000}
+N_SHARED_SHAPES = {"quick": 120, "thorough": 3000}
 USE_VALUES = [None, True, 0, 1, 2.5, "", "a", "abc", [], [1, "a"], {}, {"a": 1}, {"a": "x", "b": [1]}]
 
 
@@ -200,6 +202,188 @@ def magnitude_tree(rng, stats):
     return {"cls": "AnyOf", "kw": {}, "elements": [{"cls": "Not", "kw": {}, "elements": [leaf]}, {"cls": "Number", "kw": {}}]}
 
 
+def element_nodes(dump, below_classes=False):
+    """(path, node) for the element sub-dumps of a dump, outermost first; by default only those the repr shows (the
+    walk does not go below a model class, which prints as its bare name).  The placeholder that stands beside a
+    name-list dependency is not an element.  A node that occurs at several positions is listed at each of them."""
+    found = []
+
+    def walk(d, path):
+        if isinstance(d, dict):
+            if "cls" in d and isinstance(d.get("kw"), dict):
+                found.append((path, d))
+                if d["cls"] == "Object" and not below_classes:
+                    return
+            for k, v in d.items():
+                if k != "kw":
+                    walk(v, path + [k])
+        elif isinstance(d, list):
+            if len(d) == 2 and isinstance(d[0], dict) and "names" in d[0]:
+                return
+            for i, v in enumerate(d):
+                walk(v, path + [i])
+    walk(dump, [])
+    return found
+
+
+def _node_at(dump, path):
+    for k in path:
+        dump = dump[k]
+    return dump
+
+
+def sharing_groups(dump):
+    """the positions at which one sub-dump object occurs more than once (JSON-able: lists of paths), outermost
+    occurrences only - what lies inside a shared node is shared with it"""
+    paths, seen = {}, {}
+
+    def walk(d, path):
+        if isinstance(d, dict):
+            if "cls" in d and isinstance(d.get("kw"), dict):
+                paths.setdefault(id(d), []).append(path)
+                if id(d) in seen:
+                    return
+                seen[id(d)] = d
+            for k, v in d.items():
+                if k != "kw":
+                    walk(v, path + [k])
+        elif isinstance(d, list):
+            if len(d) == 2 and isinstance(d[0], dict) and "names" in d[0]:
+                return
+            for i, v in enumerate(d):
+                walk(v, path + [i])
+    walk(dump, [])
+    return [ps for ps in paths.values() if len(ps) > 1]
+
+
+def relink(dump, groups):
+    """make the sub-dumps at the paths of each group one object again (a case read back from a replay file)"""
+    for group in groups or []:
+        node = _node_at(dump, group[0])
+        for path in group[1:]:
+            _node_at(dump, path[:-1])[path[-1]] = node
+    return dump
+
+
+def build_sharing(dump):
+    """the real tree of a dump in which one sub-dump object may stand at several positions: such a sub-dump is built once
+    and the one real element is used at each of its positions (a sub-schema bound to a variable and used twice)"""
+    count, post = {}, []
+
+    def walk(d):
+        if isinstance(d, dict):
+            is_node = "cls" in d and isinstance(d.get("kw"), dict)
+            if is_node:
+                count[id(d)] = count.get(id(d), 0) + 1
+                if count[id(d)] > 1:
+                    return
+            for k, v in d.items():
+                if k != "kw":
+                    walk(v)
+            if is_node:
+                post.append(d)
+        elif isinstance(d, list):
+            for v in d:
+                walk(v)
+    walk(dump)
+    cache = {}
+    for node in post:                       # inner nodes first
+        if count[id(node)] > 1:
+            cache[id(node)] = dsl.build(node, cache)
+    return dsl.build(dump, cache)
+
+
+def _is_prefix(a, b):
+    return len(a) <= len(b) and b[:len(a)] == a
+
+
+def _bump(stats, key):
+    stats[key] = stats.get(key, 0) + 1
+
+
+def _parent(path):
+    """the position of the element a position belongs to"""
+    path = list(path)
+    while path and not isinstance(path[-1], str):
+        path.pop()
+    return tuple(path[:-1])
+
+
+def _slot(path):
+    """the keyword a position hangs under: the last name on its path"""
+    for k in reversed(path):
+        if isinstance(k, str):
+            return k
+    return "top"
+
+
+def share_subtree(rng, dump, stats):
+    """Use one sub-element of the tree at one or two further positions of the same tree: the sub-dump object itself is
+    put there (in place of what the generator drew), so that `build_sharing` uses one real element at all of them.  The
+    positions are ones the repr shows; the further positions are neither above nor inside the shared sub-element, so
+    the tree stays acyclic.  Returns the number of positions the shared element now has (0: the tree has no two
+    independent positions)."""
+    nodes = [(p, n) for p, n in element_nodes(dump) if p]
+    rng.shuffle(nodes)
+    if rng.random() < 0.5:
+        # as often as not a sub-element that has sub-elements of its own; a model class (which prints as its name) last
+        nodes.sort(key=lambda pn: (pn[1]["cls"] == "Object", len(element_nodes(pn[1])) == 1))
+    for spath, shared in nodes:
+        placed = [spath]
+        for _ in range(rng.choice([1, 1, 2])):
+            targets = [p for p, n in element_nodes(dump)
+                       if p and n is not shared and not any(_is_prefix(p, q) or _is_prefix(q, p) for q in placed)]
+            if not targets:
+                break
+            tpath = rng.choice(targets)
+            _node_at(dump, tpath[:-1])[tpath[-1]] = shared
+            placed.append(tpath)
+        if len(placed) < 2:
+            continue
+        _bump(stats, f"shared-occurrences:{len(placed)}")
+        _bump(stats, "shared-class:" + shared["cls"])
+        _bump(stats, "shared-size:" + ("leaf" if len(element_nodes(shared)) == 1 else "subtree"))
+        for p in placed:
+            _bump(stats, "shared-under:" + _slot(p))
+        _bump(stats, "shared-relation:" + ("same-parent" if len({_parent(p) for p in placed}) == 1 else "different-branches"))
+        return len(placed)
+    return 0
+
+
+def sharing_shape(rng, dg, stats):
+    """a small tree in which one sub-element - any tree the generator draws - stands at two or three positions, one
+    shape per way a DSL user factors a common sub-schema out into a variable"""
+    s = unique_class_names(dg.dump(rng.choice([1, 1, 2])))
+    other = {"cls": rng.choice(["String", "Integer", "Null", "Boolean"]), "kw": {}}
+    shape = rng.choice(["itself-or-list-of", "two-properties", "tuple-and-additional-items", "different-branches", "contains-and-items",
+                        "pattern-and-additional-properties", "dependency-and-property", "composition-twice", "nested-not"])
+    _bump(stats, "shared-shape:" + shape)
+    _bump(stats, "shared-class:" + s["cls"])
+    comp = rng.choice(["AnyOf", "OneOf", "AllOf"])
+    if shape == "itself-or-list-of":
+        return {"cls": comp, "kw": {}, "elements": [s, {"cls": "Array", "kw": {"itemsKind": "single"}, "items": [s]}]}
+    if shape == "two-properties":
+        return {"cls": "Element", "kw": {"hasProps": True},
+                "props": [[{"name": "start", "source": "start", "required": True}, s], [{"name": "class_", "source": "class"}, s],
+                          [{"name": "other", "source": "other"}, other]][:rng.choice([2, 3])]}
+    if shape == "tuple-and-additional-items":
+        return {"cls": rng.choice(["Array", "Element"]), "kw": {"itemsKind": "tuple"}, "items": [s, s], "addItems": s}
+    if shape == "different-branches":
+        return {"cls": "AllOf", "kw": {}, "elements": [
+            {"cls": "Not", "kw": {}, "elements": [{"cls": "Array", "kw": {"itemsKind": "single"}, "items": [s]}]},
+            {"cls": "Element", "kw": {}, "contains": s, "propNames": {"cls": "String", "kw": {}}}]}
+    if shape == "contains-and-items":
+        return {"cls": "Array", "kw": {"itemsKind": "single"}, "items": [s], "contains": s}
+    if shape == "pattern-and-additional-properties":
+        return {"cls": "Element", "kw": {"hasPatProps": True}, "patProps": [[{"name": "^x-"}, s], [{"name": "^y-"}, other]], "addProps": s}
+    if shape == "dependency-and-property":
+        return {"cls": "Element", "kw": {"hasProps": True, "hasDeps": True}, "props": [[{"name": "a", "source": "a"}, s]],
+                "deps": [[{"name": "a"}, s], [{"name": "b", "names": ["a"]}, {"cls": "Element", "kw": {}}]]}
+    if shape == "composition-twice":
+        return {"cls": comp, "kw": {}, "elements": [s, other, s]}
+    return {"cls": "Not", "kw": {}, "elements": [{"cls": comp, "kw": {}, "elements": [{"cls": "Not", "kw": {}, "elements": [s]}, s]}]}
+
+
 def namespace_for(el):
     from statham.serializers.orderer import get_object_classes
     ns = {name: getattr(_elements, name) for name in _elements.__all__} if hasattr(_elements, "__all__") else {}
@@ -228,18 +412,24 @@ def expected_kwargs(el):
     return out
 
 
-def check_element(drv, el, dump, out, stats, what="element", used=False, unique=True):
+def check_element(drv, el, dump, out, stats, what="element", used=False, unique=True, shared=None):
     try:
         text = repr(el)
     except Exception as exc:  # noqa: BLE001 - an element without a repr has no expression that rebuilds it
         out.note_case({"element": dump}, True)
-        out.failures.append({"case": {"element": dump, "used_before": used}, "what": f"repr(element) raised {type(exc).__name__}: {exc}", "finding": None})
+        case = {"element": dump, "used_before": used}
+        if shared:
+            case["shared"] = shared
+        out.failures.append({"case": case, "what": f"repr(element) raised {type(exc).__name__}: {exc}", "finding": None})
         return
     case = {"element": dump, "repr": text, "used_before": used}
+    if shared:
+        # positions of the tree that hold one and the same element object (see build_sharing)
+        case["shared"] = shared
     out.note_case({"element": dump}, len(text) > 20)
     try:
         real = pyast.canon_expr_text(text)
-    except (SyntaxError, ValueError, pyast.Unsupported) as exc:
+    except (SyntaxError, ValueError, TypeError, pyast.Unsupported) as exc:  # TypeError: a literal that is no JSON value
         out.failures.append({"case": case, "what": f"repr is not an expression of the expected form: {exc}", "finding": None})
         return
     rep = drv.ask({"op": "repr", "elem": dump})
@@ -274,12 +464,12 @@ def check_element(drv, el, dump, out, stats, what="element", used=False, unique=
     stats[what + "-ok"] = stats.get(what + "-ok", 0) + 1
 
 
-def check_property(drv, rng, dg, out, stats, sub=None):
+def check_property(drv, rng, dg, out, stats, sub=None, shared=None):
     if sub is None:
         sub = unique_class_names(dg.dump(2))
         if rng.random() < 0.25 and plant_magnitude(rng, sub, stats):
             stats["magnitude-under-property-wrapper"] = stats.get("magnitude-under-property-wrapper", 0) + 1
-    el = dsl.build(sub)
+    el = build_sharing(relink(sub, shared)) if shared else dsl.build(sub)
     required = rng.random() < 0.5
     name = rng.choice(["a", "class_", "a_b", "x"])
     source = rng.choice([None, name, "other", "a b"])
@@ -293,6 +483,8 @@ def check_property(drv, rng, dg, out, stats, sub=None):
         reused = True
     holder = _elements.Element(properties={name: prop})
     case = {"property": {"name": name, "required": required, "source": source, "reused": reused}, "element": sub}
+    if shared:
+        case["shared"] = shared
     out.note_case({"property": case["property"], "element": sub}, True)
     try:
         text = repr(prop)
@@ -302,7 +494,7 @@ def check_property(drv, rng, dg, out, stats, sub=None):
     case["repr"] = text
     try:
         real = pyast.canon_expr_text(text)
-    except (SyntaxError, ValueError, pyast.Unsupported) as exc:
+    except (SyntaxError, ValueError, TypeError, pyast.Unsupported) as exc:  # TypeError: a literal that is no JSON value
         out.failures.append({"case": case, "what": f"property repr is not an expression: {exc}", "finding": None})
         return
     key = {"name": name, "required": required}
@@ -352,6 +544,10 @@ def run(ctx, scale=1.0):
                 "over all exponents) in a numeric / count keyword or in default / const / enum, directly or inside a list / dict literal, at "
                 "any depth of the tree the repr shows; small trees around one such leaf (alone, array items, property, Not inside AnyOf, "
                 "additionalProperties) and property wrappers over them; half of the trees are used for validation before their repr is taken; "
+                "trees in which one element object stands at two or three positions (a sub-element of a random tree put at further positions "
+                "that are neither above nor inside it; small shapes: itself or a list of it, two properties, tuple items and additionalItems, "
+                "different branches, contains and items, pattern / additional properties, dependency and property, twice in one composition, "
+                "under nested Not), plain, used before, and under a property wrapper; "
                 "a case is one tree or wrapper; non-trivial = repr longer than 20 characters; distinct by SHA-256")
     stats = {}
     drv = core.Driver()
@@ -399,6 +595,44 @@ def run(ctx, scale=1.0):
                 for v in rng.sample(USE_VALUES, 3) + [core.NP]:
                     core.real_call(el, v)
             check_element(drv, el, core.dump_elem(el), out, stats, what="magnitude-literal", used=(i % 4 == 1))
+        # one element object at more than one position of one tree (a sub-schema bound to a variable and used twice):
+        # in random trees, in the small shapes of sharing_shape, and under property wrappers
+        for i in range(int((N_SHARED[ctx["tier"]] + N_SHARED_SHAPES[ctx["tier"]]) * scale)):
+            if i % 4 == 3:
+                linked = sharing_shape(rng, dg, stats)
+            else:
+                for _ in range(6):
+                    linked = dg.dump(rng.choice([2, 3, 3]))
+                    if linked["cls"] == "Object":
+                        linked = dg.element(3)
+                    unique_class_names(linked)
+                    if share_subtree(rng, linked, stats):
+                        break
+                else:
+                    _bump(stats, "shared-none:no-two-independent-positions")
+                    continue
+            try:
+                el = build_sharing(linked)
+            except Exception as exc:  # noqa: BLE001 - the constructors refuse nothing the generator draws
+                out.failures.append({"case": {"element": linked, "shared": sharing_groups(linked)},
+                                     "what": f"building the tree raised {type(exc).__name__}: {exc}", "finding": None})
+                continue
+            dump = core.dump_elem(el)
+            groups = sharing_groups(linked)
+            if dump != linked:
+                # the paths of the groups are positions of the generator's dump: they must be positions of the canonical one too
+                _bump(stats, "shared-none:dump-not-canonical")
+                continue
+            used = i % 3 == 1
+            if used:
+                for v in rng.sample(USE_VALUES, 4) + [core.NP]:
+                    core.real_call(el, v)
+            if i % 5 == 4:
+                check_property(drv, rng, dg, out, stats, sub=dump, shared=groups)
+                _bump(stats, "shared-under-property-wrapper")
+            else:
+                check_element(drv, el, dump, out, stats, what="shared-subelement", used=used, shared=groups)
+            _bump(stats, "shared-trees")
         # one element per class with each single keyword at a falsy non-default value
         for dump in (
             {"cls": "Element", "kw": {"default": None}}, {"cls": "Element", "kw": {"default": False}}, {"cls": "Element", "kw": {"const": {"i": "0"}}},
@@ -429,7 +663,14 @@ def _replay_case(case):
     out, stats = Outcome(), {}
     drv = core.Driver()
     try:
-        el = dsl.build(case["element"])
+        if case.get("shared"):
+            try:
+                el = build_sharing(relink(case["element"], case["shared"]))
+            except Exception as exc:  # noqa: BLE001
+                out.failures.append({"case": case, "what": f"building the tree raised {type(exc).__name__}: {exc}", "finding": None})
+                return out
+        else:
+            el = dsl.build(case["element"])
         if "property" in case:
             p = case["property"]
             if p.get("reused"):
@@ -450,7 +691,8 @@ def _replay_case(case):
             if case.get("used_before"):
                 for v in USE_VALUES + [core.NP]:
                     core.real_call(el, v)
-            check_element(drv, el, case["element"], out, stats, used=bool(case.get("used_before")))
+            check_element(drv, el, core.dump_elem(el) if case.get("shared") else case["element"], out, stats,
+                          used=bool(case.get("used_before")), shared=case.get("shared"))
     finally:
         drv.close()
     return out
